@@ -31,9 +31,8 @@ OUTSIDE = pc.OUTSIDE_PIPE
 def h_solved_balanced(jC: int, jH: int, jO: int, jq: int, qC: int, qH: int, qO: int, qq: int,
                       wC: int, wH: int, wO: int, wq: int, xC: int, xH: int, xO: int, xq: int,
                       jjC: int, jjH: int, jjO: int, jjq: int, wwC: int, wwH: int, wwO: int, wwq: int,
-                      m1: int, m2: int, f1: int, f2: int, c1: float, c2: float, thr: float) -> bool:
+                      m1: int, m2: int, f1: int, f2: int, c1: int, c2: int, thr: int) -> bool:
     """
-    pre: 0.0 <= c1 <= 1.0 and 0.0 <= c2 <= 1.0 and 0.0 <= thr <= 1.0
     post: _
     """
     a = dict(locals())
@@ -70,7 +69,12 @@ def h_solved_balanced(jC: int, jH: int, jO: int, jq: int, qC: int, qH: int, qO: 
 def plan(tier):
     P = []
     for name, params, kind in pc.partitions(tier, "C01"):
-        P.append(Part(H + "h_solved_balanced", params, name, kind=kind, group="pipeline", timeout=params.pop("_timeout", 1500), path_timeout=120))
+        P.append(Part(H + "h_solved_balanced", params, name, kind=kind, group="pipeline", timeout=1500, path_timeout=120))
+        if tier == "thorough" and "|m=4,jq=0,qq=0]" in name:
+            p2 = dict(params, sym_thr=True)
+            P.append(Part(H + "h_solved_balanced", p2, name.replace("]", ",thr]"), kind=kind, group="pipeline-threshold", timeout=1500, path_timeout=120))
+    for tw in ("any_solved", "rule", "mcs", "input", "curated"):
+        P.append(Part(H + "h_solved_balanced", {"shape": ["j>>q"], "E": ["C", "H"], "K": 2, "twin": tw}, "pipe.twin[%s]" % tw, kind="twin", group="pipeline", timeout=600))
     return P
 
 
